@@ -138,6 +138,15 @@ class VSeqAbs(V):
         self.tag = tag
 
 
+class VClassSym(V):
+    """a class object known only symbolically (the `cls` of a classmethod / type(obj))"""
+    kind = 'clssym'
+
+    def __init__(self, z, base='Packet'):
+        self.z = z          # z3 Int class id
+        self.base = base    # schema class all instances belong to
+
+
 class VConf(V):
     """read-only str-keyed mapping (bisturi_conf, defaults): has/val arrays"""
     kind = 'conf'
@@ -216,3 +225,15 @@ def tuple_axioms():
         for i in range(n):
             out.append(z3.ForAll(xs, projs[i](f(*xs)) == xs[i], patterns=[f(*xs)]))
     return out
+
+
+def tuple_parts(z, n):
+    """(is z an n-tuple value?, projections) for a term of sort Val"""
+    import z3
+    if n not in _tuple_fn:
+        _tuple_fn[n] = (z3.Function('tup%d' % n, *([T.Val] * n + [T.I])),
+                        [z3.Function('tup%d_%d' % (n, i), T.I, T.Val) for i in range(n)])
+    f, projs = _tuple_fn[n]
+    o = T.Val.oval(z)
+    items = [p(o) for p in projs]
+    return z3.And(T.Val.is_VO(z), o == f(*items)), items
